@@ -460,6 +460,11 @@ func Verif_c17_match() {
 		alphaP = "*?@+()|ab[]\\"
 		alphaT = "ab()|"
 	}
+	// Shortest changes which match a search prefers, never whether the whole
+	// string matches; it is combined with every mode
+	if verifParam("shortest") != 0 {
+		mode |= Shortest
+	}
 	for i := 0; i < len(p); i++ {
 		verifAssume(verifInSet(p[i], alphaP))
 	}
